@@ -30,3 +30,21 @@ let s_nodes l = String.concat " " (List.map (fun x -> string_of_int (int_of_n x)
 let handlers : (string * (unit -> unit)) list ref = ref []
 let register name f = handlers := (name, f) :: !handlers
 
+
+(* ---- printing of the canonical LP form (Lin.canon) ---- *)
+let s_q (z, p) = Printf.sprintf "%d/%d" (int_of_z z) (int_of_pos p)
+let s_var v = String.concat "," (string_of_int (int_of_n v.vfam) :: List.map (fun x -> string_of_int (int_of_n x)) v.vidx)
+let s_sense = function SLe -> "<=" | SGe -> ">=" | SEq -> "="
+let print_col (((v, lb), ub), i) = Printf.printf "C %s %s %s %d\n" (s_var v) (s_q lb) (s_q ub) (if i then 1 else 0)
+let print_row ((terms, s), r) =
+  Printf.printf "R %s %s | %s\n" (s_sense s) (s_q r) (String.concat " " (List.map (fun (v, c) -> s_var v ^ ":" ^ s_q c) terms))
+let print_rows rs = List.iter (fun r -> print_row (canon_row r)) rs
+let print_cols cs = List.iter (fun c -> print_col (canon_col c)) cs
+let print_milp m =
+  let (((cs, rs), ob), mx) = canon m in
+  List.iter print_col cs; List.iter print_row rs;
+  Printf.printf "O %s\n" (String.concat " " (List.map (fun (v, c) -> s_var v ^ ":" ^ s_q c) ob));
+  Printf.printf "S %s\n" (if mx then "max" else "min");
+  print_endline "END"
+(* a variable on the wire: fam k i1 .. ik *)
+let next_var () = let f = next_n () in let idx = next_list next_n in { vfam = f; vidx = idx }
